@@ -1,0 +1,36 @@
+package resource
+
+import "sync"
+
+// turnstile lets the change events of a resource leave in the order of the commits they describe.
+// A writer takes the number of its commit while it holds the resource's write lock, and publishes after the lock has
+// been released; without the turnstile a later commit could publish first, and a subscriber whose last event is the
+// earlier value would show a stale value for ever.
+// The zero turnstile is ready for commit number 1.
+type turnstile struct {
+	mu   sync.Mutex
+	cond *sync.Cond
+	done uint64 // the commits up to and including this one have published (or given up)
+}
+
+// enter blocks until every commit before n has left.
+func (t *turnstile) enter(n uint64) {
+	t.mu.Lock()
+	defer t.mu.Unlock()
+	if t.cond == nil {
+		t.cond = sync.NewCond(&t.mu)
+	}
+	for t.done != n-1 {
+		t.cond.Wait()
+	}
+}
+
+// leave lets commit n+1 in.
+func (t *turnstile) leave(n uint64) {
+	t.mu.Lock()
+	defer t.mu.Unlock()
+	t.done = n
+	if t.cond != nil {
+		t.cond.Broadcast()
+	}
+}
